@@ -118,6 +118,18 @@ def run(tier):
         for op in ent["ops"]:
             op = op.replace(" t.ctb ", " %s " % tn)
             ops2 += ["HOOK budget %d" % budget_for(op), op]
+            # the same input as a later / earlier word of a longer text, doubled, and behind a blank: the guards that made
+            # these calls return are per word or per position (seeded change C03-D resets one at the word boundary)
+            tk = op.split(" ")
+            u = common.unwide(tk[6])
+            if tk[0] in ("FWD", "BWD") and u:
+                sp = [0x8000] if u[0] & 0x8000 else [0x20]
+                for var in (u[:1] + sp + u, u + sp + u[:1], u + sp + u, sp + u + sp, u[:1] + sp + u[:1] + sp + u):
+                    tk2 = list(tk)
+                    tk2[3] = str(int(tk[3]) + 2 * len(var))
+                    tk2[6] = common.wide(var)
+                    op2 = " ".join(tk2)
+                    ops2 += ["HOOK budget %d" % budget_for(op2), op2]
         cases.insert(0, common.Case("c03-corpus-" + ent["id"], ["HOOK ticks 1", "HOOK trace 1", "TBL %s %s" % (tn, common.hexbytes(ent["table"]))],
                                     ops2, {"table": "generated", "kind": "generated", "text": ent["table"]}))
     # (c) hyphenation
